@@ -94,3 +94,8 @@ claim("C05",
       "Generated cohorts of 1..8 coverage files (any sex mix, depth scales, noise, naming style, with/without/empty antitarget files, male/female reference, sexes given or inferred, shuffled file order) are pooled with corrections off and every bin's log2, spread and depth is compared with the restated estimator over the samples plus the flat pseudo-sample; depth-only cohorts must reproduce the centred profile with spread ~ 0 and X/Y must sit at -1/0 and -1; with corrections on the bins and the chromosome-level X/Y medians are checked; mismatching bins must be rejected; flat references give the 0/-1 pattern and gc/rmask equal the character counts of a generated FASTA.",
       "Trusted: vk/models.py biweight restatements (ties accept either branch); the harness .cnn writer/parser; pyfaidx as FASTA reader underneath; sex inference itself is C15's subject.",
       "DESIGN.md 5/C05")
+claim("C10",
+      "property-based testing (Hypothesis): generated call histories over a shared workspace, as composite sequences and as a RuleBasedStateMachine; argument snapshots + differential against a fresh single-process recomputation; write-sequence model",
+      "Histories of up to 4 steps (target, antitarget, fix, segment with 1/2/3/16 processes, segmetrics, call with every method and filter list, genemetrics, breaks, bintest, metrics, exports, center_all on a copy, interval algebra, by_arm/by_gene iteration, RNG reseeds) run on shared argument objects; after every step a deep snapshot of every argument must be unchanged and the result must equal the first evaluation in the history and a fresh single-process recomputation on pristine arguments under a fixed RNG state; k = 1..5 ensure_path+write cycles must leave k files with the i-th oldest content intact.",
+      "Trusted: deepcopy/snapshot machinery; exact (bitwise) comparison; histories are sampled; OS scheduling not controlled; side effects outside arguments/results (warnings filter, RNG reseeding by cnvkit itself) outside the statement.",
+      "DESIGN.md 5/C10")
